@@ -63,7 +63,7 @@ WALKERS = [
     walker('z08_wide', 'm'),
     walker('z09_headless', 'm'),
     walker('z10_roots_r', 'm'), walker('z11_roots_n', ''), walker('z11_roots_n', 'mr'), walker('z12_roots_s', 'm'),
-    walker('z03_orthoroot', 'mp1'), walker('z06_plans', 'p2'), walker('z08_wide', 'bp3'),
+    walker('z03_orthoroot', 'mp1'), walker('z06_plans', 'p2'), walker('z08_wide', 'bp3'), walker('z11_roots_n', 'r'), walker('z04_nested', 'r'),
 ]
 PAYLOAD_WALKERS = [w['name'] for w in WALKERS if 'HV_PAYLOAD' in ' '.join(w['defines'])]
 MANUAL_WALKERS = [w['name'] for w in WALKERS if 'HV_MANUAL' in w['defines'] and 'HV_RNG_BUILTIN' not in w['defines']]
@@ -125,6 +125,13 @@ PROPS = {
         note='Trusted: the order model (head before sub-states, orthogonal sub-states in declaration order, injected before own on the way down, own before injected on the way up, a phase stops at the first state boundary after consumption).',
         technique='model-based property testing (rapidcheck): exact sequence comparison with a reference order model',
     ),
+    'C06': dict(
+        level='exploration', bins=WALKER_NAMES,
+        quick=walk_jobs(WALKER_NAMES, 5000, 40), thorough=walk_jobs(WALKER_NAMES, 20000, 60),
+        claim='Plans are edited from outside and from callbacks (all task kinds, cyclic tasks, several per origin, destinations outside the region, payloads), states report success/failure from every update/react phase, externally and from guards. Safety, on every update/react step: every request issued on behalf of a region head (seen through the logger) must be justified by a task of that region\'s plan whose origin is active and succeeded (this step or carried mark) and that is not behind a task with an inactive origin; it is removed exactly once and every other task stays; planSucceeded/planFailed need a report of the same kind earlier in the step; marks do not survive the step or the exit of their state (tracked across steps). Liveness, on steps that meet the statement\'s premises literally (exactly one reporter, a sub-state of the innermost plan-owning region, nothing else reported or requested): the tasks of that origin are executed in order / the head receives planSucceeded when the plan is empty / planFailed on failure.',
+        note='Known findings F12 (tasks run as change) and F13 (status accumulator) are tolerated in exactly their situation; liveness is not demanded where F13 applies. Steps with the logger detached are not judged (plan-issued requests are observed through it).',
+        technique='stateful property-based testing (rapidcheck): safety invariant over plan/trace histories + liveness under literal premises',
+    ),
     'C07': dict(
         level='exploration', bins=['units_plan'] + ['walk_z06_plans_m', 'walk_z06_plans_bt5', 'walk_z06_plans_p2'],
         quick=[dict(bin='units_plan', cases=40000, size=100)] + walk_jobs(['walk_z06_plans_m', 'walk_z06_plans_bt5', 'walk_z06_plans_p2'], 6000, 40),
@@ -168,12 +175,26 @@ PROPS = {
         note='The 32-byte and over-aligned payloads carry redundancy so that a partially copied payload is detected.',
         technique='property-based testing (rapidcheck): tagged payload tracking through guards, lifecycle callbacks and history',
     ),
+    'C10': dict(
+        level='exploration', bins=WALKER_NAMES,
+        quick=walk_jobs(WALKER_NAMES, 4000, 40), thorough=walk_jobs(WALKER_NAMES, 15000, 60),
+        claim='Every generated case is executed twice: in heap storage pre-filled with a generated byte, and in other storage pre-filled with the complement, where from a generated op on the run continues on a copy-constructed instance (in storage filled with a third pattern). The complete callback/action trace and every configuration read back must be identical (digest over all trace events and configurations). Includes automatic activation inside the constructor, scripted and built-in random generators, random roots.',
+        note='"Every prior memory content" is sampled by generated fill bytes; addresses differ between the runs by construction. The original of a copy stays alive (using a copy whose original is gone is the known finding F4 for the built-in generator).',
+        technique='differential property testing (rapidcheck): same case, different storage contents/addresses/copies',
+    ),
     'C11': dict(
         level='exploration', bins=WALKER_NAMES, hang_is_violation=True,
         quick=walk_jobs(WALKER_NAMES, 6000, 40), thorough=walk_jobs(WALKER_NAMES, 20000, 60),
         claim='All generated histories (including bursts of requests beyond the queue capacity from outside and from callbacks, task appends beyond capacity, endless substitution) run under ASan+UBSan with the library\'s own assertions routed to a handler: no sanitizer report, no assertion, the configuration stays well-formed after over-capacity bursts.',
         note='Known findings F14 and F23 (assertions reachable through the public API) are tolerated only in the exact situation described in KNOWN_FINDINGS.txt. "Never allocates" is observed through an operator-new counter around library calls on the explored paths.',
         technique='fuzzing-style property testing under sanitizers with live assertions (rapidcheck; libFuzzer in the thorough tier)',
+    ),
+    'C16': dict(
+        level='exploration', bins=WALKER_NAMES,
+        quick=walk_jobs(WALKER_NAMES, 5000, 40), thorough=walk_jobs(WALKER_NAMES, 20000, 60),
+        claim='Logger records and callbacks are written to one timeline. With a logger attached every invoked callback must be immediately preceded by its recordMethod record (interface-logging builds: and every record answered by its callback, except the react/query family; verbose build: records for non-overridden methods allowed), every scripted request / cancellation / succeed / fail must be followed by exactly its record with the right ids, select resolutions must report what select() returned, a detached logger must receive nothing; the whole case is re-run with no logger ever attached and must produce the same callbacks, actions and configurations; after every API call structure() has one entry per state in id order (type names compared) with isActive == isActive(id), and activityHistory() is either unchanged or the saturating successor for every state.',
+        note='Anonymous region heads have no name in the report; their entries are only checked for isActive.',
+        technique='property-based testing (rapidcheck): record/callback pairing on one timeline + logger on/off differential',
     ),
     'C17': dict(
         level='exploration', custom='c17', bins=[],
